@@ -16,7 +16,7 @@ RULE = (
 COMPONENTS_REAL = ['Sweeper.compute_residual, generic_implicit/explicit/imex_1st_order', 'imex_1st_order_mass.compute_residual/update_nodes', 'base_transfer_mass (two-level mass runs)', 'CheckConvergence incl. the increment tolerance e_tol (EstimateEmbeddedError)', 'controller_nonMPI.it_check', 'DefaultHooks', 'BaseTransfer + mesh_to_mesh/mesh_to_mesh_fft/TransferMesh_NoCoarse', 'testequation0d, test_equation_IMEX, heatNd_unforced/forced, advectionNd']
 COMPONENTS_STUB = ['none of pySDC; the shadow problem instance and qmat collocation matrices belong to the harness', 'sim/massproblem.MassDahlquist: a harness-owned linear problem with a mass matrix, used to drive the real imex_1st_order_mass sweeper', 'sim/massproblem.IdentityTransferWithProject: identity space transfer offering project() for base_transfer_mass']
 ASSUMPTIONS = ['rounding allowance 64*eps*S, S = sum of absolute values of the terms of the worst row (not a tuned tolerance)', 'verdicts within the rounding margin of restol are not judged', 'imex_1st_order_mass is driven on a harness-owned mass-matrix problem (single level); base_transfer_mass is not driven']
-PROBES = ['mass_matrix_sweeper', 'residual_checked', 'stopped_by_residual', 'stopped_by_increment', 'stopped_by_maxiter', 'soft_fault_made_residual_grow', 'later_step_converged_first']
+PROBES = ['mass_matrix_sweeper', 'residual_checked', 'stopped_by_residual', 'stopped_by_increment', 'stopped_by_maxiter', 'soft_fault_made_residual_grow']
 
 
 def plan(tier):
